@@ -417,43 +417,45 @@ class Rule(object):
 
     def _validate_float_range_content(self, node: Node, minmax, errs: list = None):
         self._validate_float_content(node, errs)
-        float_val = float(node.content)
-        if float_val < minmax[0] or float_val > minmax[1]:
-            msg = f'Node "{node.name}" content should be in range {minmax}'
-            if errs is None:
-                raise MetapypeRuleError(msg)
-            else:
-                errs.append(
-                    (
-                        ValidationError.CONTENT_EXPECTED_RANGE,
-                        msg,
-                        node,
-                        minmax[0],
-                        minmax[1],
-                        float_val,
+        if Rule.is_float(node.content):
+            float_val = float(node.content)
+            if float_val < minmax[0] or float_val > minmax[1]:
+                msg = f'Node "{node.name}" content should be in range {minmax}'
+                if errs is None:
+                    raise MetapypeRuleError(msg)
+                else:
+                    errs.append(
+                        (
+                            ValidationError.CONTENT_EXPECTED_RANGE,
+                            msg,
+                            node,
+                            minmax[0],
+                            minmax[1],
+                            float_val,
+                        )
                     )
-                )
 
     def _validate_float_nonnegative(
         self, node: Node, errs: list = None
     ):
         self._validate_float_content(node, errs)
-        float_val = float(node.content)
-        if float_val < 0:
-            msg = f'Node "{node.name}" content should be non-negative'
-            if errs is None:
-                raise MetapypeRuleError(msg)
-            else:
-                errs.append(
-                    (
-                        ValidationError.CONTENT_EXPECTED_RANGE,
-                        msg,
-                        node,
-                        0,
-                        None,
-                        float_val,
+        if Rule.is_float(node.content):
+            float_val = float(node.content)
+            if float_val < 0:
+                msg = f'Node "{node.name}" content should be non-negative'
+                if errs is None:
+                    raise MetapypeRuleError(msg)
+                else:
+                    errs.append(
+                        (
+                            ValidationError.CONTENT_EXPECTED_RANGE,
+                            msg,
+                            node,
+                            0,
+                            None,
+                            float_val,
+                        )
                     )
-                )
 
     def _validate_float_range_ew_content(self, node: Node, errs: list = None):
         self._validate_float_range_content(node, (-180.0, 180.0), errs)
